@@ -113,6 +113,9 @@ for _pid, _mod in {
     "C15": "c15",
     "C16": "c16",
     "C17": "c17",
+    "C18": "c18",
+    "C19": "c19",
+    "C20": "c20",
 }.items():
     CHECKS[_pid] = _lazy(_mod)
 
